@@ -223,6 +223,7 @@ ProjShared(v, b, c) ==
 ---------------------------------------------------------------------------
 (* Universes (chosen by the constant U of the extending module's config)   *)
 
+RangeOK(lo, hi) == lo = NONE \/ hi = NONE \/ lo <= hi
 I0 == IntS(NONE, NONE, FALSE)
 I01 == IntS(0, 1, FALSE)
 IntAtoms == {IntV(n) : n \in {-1, 0, 1, 2, 3}}
@@ -230,7 +231,7 @@ IntAtoms == {IntV(n) : n \in {-1, 0, 1, 2, 3}}
 \* ---- quick: ~110 specs x ~60 values
 IntSeqs(k) == UNION {[1..n -> {IntV(0), IntV(2)}] : n \in 0..k}
 ValuesQ ==
-  {VNone, VMissing, BoolV(1), BoolV(0), FloatV(5), FloatV(25), StrV(1), StrV(2)} \cup IntAtoms
+  {VNone, VMissing, BoolV(1), BoolV(0), FloatV(5), FloatV(25), FloatV(-5), FloatV(-15), StrV(1), StrV(2)} \cup IntAtoms \cup {IntV(-2)}
   \cup {ListV(xs) : xs \in IntSeqs(3)}
   \cup {ListV(<<StrV(1)>>), ListV(<<ListV(<<IntV(0)>>)>>), ListV(<<ListV(<<>>)>>),
         ListV(<<ListV(<<IntV(0)>>), ListV(<<IntV(2), IntV(2), IntV(0)>>)>>)}
@@ -258,11 +259,12 @@ ModCombos ==
    Dflt(NonOf(ListS(I0, 0, 2)), ListV(<<>>)), Frz(EnumS(<<VNone, IntV(1)>>), IntV(1)), Frz(NonOf(FloatS(NONE, NONE, FALSE)), FloatV(5)),
    DictS(<< <<1, Frz(NonOf(I0), IntV(1))>>, <<2, I0>> >>), DictS(<< <<1, Dflt(NonOf(I0), IntV(1))>> >>), Frz(NonOf(ObjS(1)), ObjV(1))}
 
-Sizes3 == {<<0, NONE>>, <<1, NONE>>, <<2, NONE>>, <<0, 1>>, <<1, 1>>, <<0, 2>>, <<1, 2>>, <<2, 2>>}
+Sizes3 == {<<0, NONE>>, <<1, NONE>>, <<2, NONE>>, <<0, 0>>, <<0, 1>>, <<1, 1>>, <<0, 2>>, <<1, 2>>, <<2, 2>>}   \* incl. size = 0
 SpecsQ ==
-  {IntS(lo, hi, non) : lo \in {NONE, 0, 1}, hi \in {NONE, 1, 2}, non \in BOOLEAN}
+  \* bounds are drawn from {none, negative, zero, positive} for min and for max
+  {s \in {IntS(lo, hi, non) : lo \in {NONE, -1, 0, 1}, hi \in {NONE, -1, 0, 1, 2}, non \in BOOLEAN} : RangeOK(s.lo, s.hi)}
   \cup {Dflt(I0, IntV(1)), Dflt(I0, IntV(3)), Dflt(IntS(0, 2, FALSE), IntV(1)), Frz(I0, IntV(1)), Frz(IntS(0, NONE, FALSE), IntV(2))}
-  \cup {FloatS(lo, hi, non) : lo \in {NONE, 0}, hi \in {NONE, 10}, non \in BOOLEAN}
+  \cup {s \in {FloatS(lo, hi, non) : lo \in {NONE, -10, 0}, hi \in {NONE, -5, 0, 10}, non \in BOOLEAN} : RangeOK(s.lo, s.hi)}
   \cup {Dflt(FloatS(NONE, NONE, FALSE), FloatV(5))}
   \cup {BoolS, NonOf(BoolS), Dflt(BoolS, BoolV(1)), StrS, NonOf(StrS), Dflt(StrS, StrV(1)), StrRe(<<StrV(1)>>)}
   \cup {EnumS(<<IntV(1)>>), EnumS(<<IntV(1), IntV(2)>>), EnumS(<<IntV(2), IntV(1), IntV(3)>>),
@@ -271,7 +273,7 @@ SpecsQ ==
   \cup {ListS(ListS(I0, 0, 2), 0, NONE), ListS(ListS(I0, 0, NONE), 0, 2), NonOf(ListS(I0, 0, NONE)),
         Dflt(ListS(I0, 0, NONE), ListV(<<IntV(0)>>))}
   \cup {TupleFix(<<I0>>), TupleFix(<<I01>>), TupleFix(<<I0, I0>>), TupleFix(<<I01, I0>>), TupleFix(<<I0, StrS>>)}
-  \cup {TupleVar(e, sz[1], sz[2]) : e \in {I0, I01}, sz \in {<<0, NONE>>, <<1, NONE>>, <<2, NONE>>, <<0, 2>>, <<1, 2>>, <<2, 2>>, <<0, 1>>}}
+  \cup {TupleVar(e, sz[1], sz[2]) : e \in {I0, I01}, sz \in {<<0, NONE>>, <<1, NONE>>, <<2, NONE>>, <<0, 0>>, <<0, 2>>, <<1, 2>>, <<2, 2>>, <<0, 1>>}}
   \cup {DictS(<<>>), DictS(<< <<1, I0>> >>), DictS(<< <<1, I01>> >>),
         DictS(<< <<1, I0>>, <<2, Dflt(I0, IntV(1))>> >>), DictS(<< <<1, I01>>, <<2, Dflt(I0, IntV(1))>> >>),
         DictS(<< <<2, I0>> >>), DictDyn(I0), DictDyn(I01), DictS(<< <<1, ListS(I0, 0, 2)>> >>),
@@ -285,13 +287,12 @@ SpecsQ ==
 
 \* ---- thorough chunks.  Each chunk is a universe of its own (all pairs inside a chunk are checked).
 Bounds4 == {NONE, -1, 0, 1, 2, 3}
-RangeOK(lo, hi) == lo = NONE \/ hi = NONE \/ lo <= hi
 IntRanges == {IntS(lo, hi, non) : lo \in Bounds4, hi \in Bounds4, non \in BOOLEAN}
 SpecsNum ==
   {s \in IntRanges : RangeOK(s.lo, s.hi)}
   \cup {Dflt(IntS(lo, hi, FALSE), IntV(d)) : lo \in {NONE, 0}, hi \in {NONE, 2}, d \in {0, 1, 2}}
   \cup {Frz(IntS(lo, hi, FALSE), IntV(d)) : lo \in {NONE, 0}, hi \in {NONE, 2}, d \in {0, 2}}
-  \cup {FloatS(lo, hi, non) : lo \in {NONE, 0, 10}, hi \in {NONE, 10, 30}, non \in BOOLEAN}
+  \cup {s \in {FloatS(lo, hi, non) : lo \in {NONE, -10, 0, 10}, hi \in {NONE, -5, 0, 10, 30}, non \in BOOLEAN} : RangeOK(s.lo, s.hi)}
   \cup {Dflt(FloatS(NONE, NONE, FALSE), FloatV(5)), Frz(FloatS(NONE, NONE, FALSE), FloatV(5)), Dflt(FloatS(0, 10, FALSE), FloatV(5))}
   \cup {BoolS, NonOf(BoolS), Dflt(BoolS, BoolV(1)), Frz(BoolS, BoolV(0)), StrS, NonOf(StrS), Dflt(StrS, StrV(1)),
         Frz(StrS, StrV(2)), StrRe(<<StrV(1)>>), StrRe(<<StrV(2)>>)}
